@@ -5,7 +5,7 @@
 From Coq Require Import Reals List Bool Lra Psatz.
 From Coquelicot Require Import Coquelicot.
 From Cop Require Import Lib.NumpyR Lib.RealLemmas Spec.ArchDefs.
-From Cop Require Spec.Clayton Spec.Frank Spec.Gumbel.
+From Cop Require Spec.Clayton Spec.Frank Spec.Gumbel Spec.ArchExtras.
 From CopRun Require Import Gen_biv Bridge_biv.
 Import ListNotations.
 Open Scope R_scope.
@@ -112,6 +112,16 @@ Proof.
   - split; [exact Hin|]. unfold bivariate_ppf_objective in *. lra.
 Qed.
 
+(* Frank: on the whole stated box (|theta| <= 18.2, v in [0,1], y in [1e-4, 1]) the bracket is valid,
+   so the inverse theorem holds without the side condition *)
+Theorem C08_frank_inverse_on_box th y v : th <> 0 -> -182/10 <= th <= 182/10 -> 0 <= v <= 1 -> 1/10000 <= y <= 1 ->
+  let u := frank_percent_point th brentq y v in EPSILON <= u <= 1 /\ FH th u v = y.
+Proof.
+  intros Hth Hb Hv Hy. apply C08_frank_inverse; try assumption; try lra.
+  rewrite bridge_frank_h by assumption.
+  pose proof (ArchExtras.frank_h_eps_small th v Hth Hb Hv). lra.
+Qed.
+
 (* monotone in y: two exact roots of a strictly increasing h are ordered like their targets *)
 Theorem C08_frank_monotone_in_y th y1 y2 v : th <> 0 -> 0 <= v <= 1 ->
   FH th EPSILON v <= y1 -> y1 <= y2 -> y2 <= 1 ->
@@ -142,6 +152,27 @@ Proof.
 Qed.
 End Solver.
 
+(* Gumbel: the same bracket claim is FALSE in a corner of the stated box (known finding F17) *)
+Theorem C08_gumbel_bracket_refuted :
+  exists th v y, 1 < th <= 5 /\ 1/10000 <= v <= 1 - 1/10000 /\ 1/10000 <= y <= 1 - 1/10000 /\ y < GH th EPSILON v.
+Proof.
+  destruct ArchExtras.gumbel_bracket_refuted as (th & v & y & Hth & Hv & Hy & H).
+  exists th, v, y. repeat split; try lra.
+  rewrite bridge_gumbel_h; [exact H | lra | | lra].
+  unfold EPSILON. split; [apply Rinv_0_lt_compat; lra|].
+  assert (/ 8388608 * 8388608 = 1) by field. assert (0 < / 8388608) by (apply Rinv_0_lt_compat; lra). nra.
+Qed.
+(* ... and it is valid whenever y >= EPSILON / v *)
+Theorem C08_gumbel_bracket_partial th v y : 1 < th -> 0 < v < 1 -> EPSILON / v <= y -> GH th EPSILON v <= y.
+Proof.
+  intros Hth Hv Hy.
+  assert (HE : 0 < EPSILON < 1).
+  { unfold EPSILON. split; [apply Rinv_0_lt_compat; lra|].
+    assert (/ 8388608 * 8388608 = 1) by field. assert (0 < / 8388608) by (apply Rinv_0_lt_compat; lra). nra. }
+  rewrite bridge_gumbel_h by assumption.
+  pose proof (ArchExtras.gumbel_bracket_partial th v Hth Hv). lra.
+Qed.
+
 Example C08_nonvacuous : 0 < 2 /\ 0 < 3/10 < 1 /\ 0 < 1/2 < 1.
 Proof. lra. Qed.
 
@@ -152,3 +183,5 @@ Print Assumptions C08_frank_inverse.
 Print Assumptions C08_gumbel_inverse.
 Print Assumptions C08_frank_monotone_in_y.
 Print Assumptions C08_elementwise.
+Print Assumptions C08_frank_inverse_on_box.
+Print Assumptions C08_gumbel_bracket_refuted.
